@@ -207,6 +207,25 @@ def c07_errors():
             if sib.receive(T) != 41: bad.append("sibling channel disturbed")
         except Exception as e: bad.append(f"gateway connection down after a callback error: {type(e).__name__}: {e!s:.50}")
         if not gw.hasreceiver(): bad.append("receiver thread died after a callback error")
+        # callback raising on the WORKER side, set on the remote_exec's own channel while its body is still running (close() is refused there)
+        w = gw.remote_exec("""
+import time
+def cb(x): raise KeyError('worker-cb-boom')
+channel.setcallback(cb)
+channel.send('ready')
+time.sleep(1.5)
+""")
+        try:
+            if w.receive(T) != "ready": bad.append("worker-side callback scenario: no 'ready'")
+            w.send(1)
+            try:
+                w.waitclose(T); bad.append("worker-side callback error did not surface on the peer")
+            except w.RemoteError as e:
+                if "worker-cb-boom" not in str(e): bad.append("worker-side callback RemoteError lacks the message")
+            except Exception as e: bad.append(f"worker-side callback error surfaced as {type(e).__name__} instead of RemoteError")
+            sib.send(42)
+            if sib.receive(T) != 42: bad.append("sibling channel disturbed by a worker-side callback error")
+        except Exception as e: bad.append(f"gateway connection down after a worker-side callback error: {type(e).__name__}: {e!s:.50}")
         return bad
     finally: g.terminate(2)
 
